@@ -31,7 +31,10 @@ class ContentType:
         if self.parameters:
             params = "; "
             params += "; ".join(
-                sorted(f'{k}="{v}"' for k, v in self.parameters.items())
+                sorted(
+                    '{}="{}"'.format(k, str(v).replace("\\", "\\\\").replace('"', '\\"'))
+                    for k, v in self.parameters.items()
+                )
             )
         else:
             params = ""
